@@ -838,6 +838,70 @@ def ob_fun_body(run, mir, rp, fam):
     e2.prove(run, ob, ex, [], conj(claims), {"pure": vals["pure"]}, fam.as_replay("function-body:", only=["body-", "return-"]))
 
 
+def scope_family(rp):
+    """Programs whose function body ends in a name that is re-defined in the function's own scope."""
+    f = e2.Family(rp)
+    f.add("scope-parameter-shadows-global", "def x := \"b\"\ndef f(x: Int) -> Str => x", "reject")
+    f.add("scope-local-shadows-global", "def x := \"b\"\ndef f() -> Str =>\n    def x := 10\n    x", "reject")
+    f.add("scope-parameter-shadows-global-conforming", "def x := \"b\"\ndef f(x: Int) -> Int => x", "accept")
+    f.add("scope-local-shadows-global-conforming", "def x := 5\ndef f() -> Str =>\n    def x := \"a\"\n    x", "accept")
+    f.add("scope-same-local-in-two-functions", "def f() -> Int =>\n    def x := 10\n    x\n\ndef g() -> Str =>\n    def x := \"a\"\n    x", "accept")
+    f.add("scope-method-field-of-other-class", "class C1\n    def a: Str := \"s\"\n    def f(self) -> Str => self.a\n\nclass C2\n    def a: Int := 10\n    def f(self) -> Str => self.a", "reject")
+    return f
+
+
+def ob_fun_body_scope(run, mir, rp, fam):
+    ob = run.ob("function-body-scope", "E2", "gen_def FunDef arm: the identifiers of the body expression in the `fun body type` constraint are "
+                "renamed with the environment the generation of the body returned (the scope in which the body's last expression is evaluated: "
+                "parameters and locals of the function), not with the enclosing environment", ["gen_def (FunDef)", "ConstrBuilder::add (contract: renames with env.var_mapping)"])
+    fn = e2.find1(mir, file=DEF_RS, name="gen_def")
+    ex = Exec(mir, max_paths=60000, inline=[ckern.ENV_SETTERS])
+    st = State()
+    _rel, lay = ckern.node_enum()
+    mk = lambda n: ckern.mk_ast(n, opq(n + ".node", "Node"))
+    (idn, _p0), (body, body_pos), (ret, ret_pos) = mk("id"), mk("body"), mk("ret")
+    idr, bodyr, retr = (Ref(ex.new_cell(st, x)) for x in (idn, body, ret))
+    vals = {"id": idr, "args": opq("args", "Vec<AST>"), "ret": Agg("Option", "Some", [retr]), "raises": opq("raises", "Vec<AST>"),
+            "body": Agg("Option", "Some", [bodyr]), "pure": z3.Bool("pure")}
+    node = ckern.mk_node("FunDef", {k: vals[k] for k in lay["FunDef"]})
+    ast, _ = ckern.mk_ast("ast", node)
+    env, ev = ckern.sym_env(ex, st)
+    ctx, constr = ckern.refs(ex, st, "ctx", "constr")
+    ends = e2.run_kernel(run, ex, fn, [Ref(ex.new_cell(st, ast)), env, ctx, constr], st)
+    claims, n_ok, used = [], 0, set()
+    outer = ex.to_val(st, env)
+    for p in ends:
+        c = conj(p.cond)
+        s = p.state
+        if result_kind(p) != "Ok":
+            continue
+        adds = [a for a in calls(p, "ConstrBuilder::add") if isinstance(a["args"][1], StrC) and a["args"][1].s == "fun body type"]
+        gens = [g for g in calls(p, "generate") if z3.eq(g["argvals"][0], ex.to_val(s, bodyr))]
+        if len(adds) != 1 or len(gens) != 1:
+            claims.append(z3.Not(c))
+            continue
+        n_ok += 1
+        after = ex.to_val(s, ex.project(s, ex.project(s, gens[0]["ret"], ("v", "Ok")), ("f", 0), "Environment"))
+        got = adds[0]["argvals"][4]
+        before = gens[0]["argvals"][1]
+        used.add("body-end-environment" if z3.eq(got, after) else "enclosing-environment" if z3.eq(got, outer) else
+                 "parameters-only-environment" if z3.eq(got, before) else "another-environment")
+        claims.append(z3.Implies(c, got == after))
+    if not n_ok:
+        raise Unsupported("no Ok path with a `fun body type` constraint")
+    which = "+".join(sorted(used))
+    sf = scope_family(rp)
+
+    def replay(model):
+        r = sf.as_replay()(model)
+        if r.get("reproduced"):
+            r["failing_programs"] = r.get("all_failing_roles")
+            r["role"] = "fun-body-type-renamed-with:" + which
+        return r
+    e2.prove(run, ob, ex, [], conj(claims), {"pure": vals["pure"]}, replay)
+    run.samples.append({"obligation": ob.id, "environment_used": which, "ok_paths": n_ok})
+
+
 def ob_unify_type(run, mir, rp, fam):
     ob = run.ob("unify-type-decision", "E2", "unify_type on two concrete (non-temporary) types: the superset test is asked "
                 "with the constraint's parent type as receiver and the child type as argument; an error of the test is "
@@ -906,7 +970,7 @@ def run(run):
                "outside: that a violation is still caught in every nesting context (branch forking in ConstrBuilder); the accepted-exactly-when direction for whole programs")
     run.trusted += ["rustc nightly MIR dump", "mirsym MIR semantics", "z3"]
     run.bounds = {"paths": "all paths of each kernel with loops cut at their headers"}
-    for f in (ob_call_parameters, ob_method_parameters, ob_access_direction, ob_shadow_mapping, ob_operator_typing, ob_flow_constraints, ob_return, ob_id_from_var, ob_fun_body, ob_unify_type):
+    for f in (ob_call_parameters, ob_method_parameters, ob_access_direction, ob_shadow_mapping, ob_operator_typing, ob_flow_constraints, ob_return, ob_id_from_var, ob_fun_body, ob_fun_body_scope, ob_unify_type):
         try:
             f(run, mir, rp, fam)
         except Unsupported as e:
